@@ -61,6 +61,7 @@ type exch struct {
 	Upload   int    `json:"upload_bytes,omitempty"`
 	Cut      bool   `json:"cut,omitempty"`    // the peer closes the connection after CutAt bytes of the response
 	CutAt    int    `json:"cut_at,omitempty"`
+	grp      *h2group      // member of a group of exchanges in flight on one HTTP/2 connection
 	barrier  chan struct{} // the peer has seen the client process everything it sent: start reading the body only then
 	Proto  string   `json:"proto"` // h1 | h2 | h3
 	A      *aresp   `json:"resp"`
